@@ -151,6 +151,61 @@ def symmetric_families(rng):
     return out
 
 
+def hub_pairs(rng, n_pairs):
+    """two pentavalent centres whose substituents are the same three kinds in different multiplicities (same set, often the same
+    sum of class numbers): only the multiset of neighbour classes tells them apart"""
+    comps = [(a, b, 5 - a - b) for a in range(6) for b in range(6 - a)]
+    pairs = [(x, y) for i, x in enumerate(comps) for y in comps[i + 1:] if all(x) and all(y) or rng.random() < 0.15]
+    rng.shuffle(pairs)
+    out = []
+    for x, y in pairs[:n_pairs]:
+        atoms, bonds = [], []
+        for comp in (x, y):
+            hub = len(atoms)
+            atoms.append(("P", 0, 0, 0))
+            for sym, k in zip(("F", "Cl", "Br"), comp):
+                for _ in range(k):
+                    o = len(atoms)
+                    atoms.append(("O", 0, 0, 0)); bonds.append((hub, o, 1))
+                    atoms.append((sym, 0, 0, 0)); bonds.append((o, o + 1, 1))
+        if rng.random() < 0.3:
+            bonds.append((0, [i for i, a in enumerate(atoms) if a[0] == "P"][1], 1))
+        out.append((f"hubs-{''.join(map(str, x))}-{''.join(map(str, y))}", mol(atoms, bonds)))
+    return out
+
+
+def multi_labelled(rng, n_mol):
+    """chains / trees of 20-60 atoms with several isotope or radical labels at scattered positions"""
+    out = []
+    for i in range(n_mol):
+        n = rng.randint(20, 60)
+        atoms = [(rng.choice(["C", "C", "C", "N", "O"]), 0, 0, 0) for _ in range(n)]
+        bonds = [(rng.randint(max(0, j - 3), j - 1), j, 1) for j in range(1, n)]
+        for a in rng.sample(range(n), rng.randint(3, 8)):
+            s = atoms[a][0]
+            atoms[a] = (s, rng.choice([13, 14, 15, 18, 0]), rng.choice([0, 0, 2]), 0) if rng.random() < 0.8 else (s, 0, 2, 0)
+        out.append((f"labelled{i}", mol(atoms, bonds)))
+    return out
+
+
+def solvent_box(rng, n_waters=110):
+    """more than a hundred fragments, among them refinement-equivalent but different ones"""
+    bicyclopropyl = [(0, 1), (1, 2), (2, 0), (0, 3), (3, 4), (4, 5), (5, 3)]
+    bicyclo220 = [(0, 1), (1, 2), (2, 3), (3, 0), (2, 4), (4, 5), (5, 3)]
+    atoms, bonds = [], []
+    frs = [bicyclopropyl, bicyclo220]
+    rng.shuffle(frs)
+    for e in frs:
+        off = len(atoms)
+        atoms += [("C", 0, 0, 0)] * 6
+        bonds += [(a + off, b + off, 1) for a, b in e]
+    for _ in range(n_waters):
+        off = len(atoms)
+        atoms += [("O", 0, 0, 0), ("H", 0, 0, 0), ("H", 0, 0, 0)]
+        bonds += [(off, off + 1, 1), (off, off + 2, 1)]
+    return mol(atoms, bonds)
+
+
 def _shrikhande():
     G = nx.Graph()
     for i in range(4):
